@@ -767,6 +767,13 @@ def gen_world(rng, layout: str, **opt: Any) -> dict:
     for idx in OPAQUE_LUMPS:
         if rng.random() < 0.3:
             W['opaque'][idx] = rbytes(rng, rng.choice((1, 4, 64, 300))) if rng.random() < 0.7 else bytes(rng.choice((16, 200)))
+    # a large, highly compressible opaque lump whose second half refers back further than its compressed length
+    # (long-distance LZMA matches: a decoder window smaller than the declared dictionary cannot reproduce it)
+    big = None
+    if opt.get('big_lzma', rng.random() < 0.3):
+        blk = rbytes(rng, rng.choice((5000, 9000)))
+        big = L_LIGHTING
+        W['opaque'][big] = blk + bytes(rng.choice((20000, 70000))) + blk + rbytes(rng, 100)
     W['lump_versions'] = {idx: rng.choice((1, 1, 2, 3, 20)) for idx in range(LUMP_COUNT) if rng.random() < 0.25}
     W['lump_versions'].pop(L_GAME_LUMP, None)  # documented by the writer: always version 0
     if L['header'] == 'l4d2':
@@ -775,6 +782,8 @@ def gen_world(rng, layout: str, **opt: Any) -> dict:
     if opt.get('lzma', rng.random() < 0.4):
         candidates = [i for i in range(LUMP_COUNT) if i not in (L_GAME_LUMP, L_PAKFILE)]
         W['compressed'] = {i for i in candidates if rng.random() < opt.get('lzma_share', 0.1)}
+        if big is not None:
+            W['compressed'].add(big)
     order = list(range(LUMP_COUNT))
     if rng.random() < 0.5:
         rng.shuffle(order)
